@@ -36,6 +36,9 @@ RULES = {
               "the heap is trimmed exactly while n_found > k",
     "C11-H1": "candidates are pushed with priority -distance (max-heap on distance) in lock-step with the counter, trimmed in lock-step, "
               "and the result pops the heap exactly n_found times, reads the payload field and reverses",
+    "C11-Q1": "the candidate heap of `query` is the package PriorityQueue, used only through push / pop / get / front / empty; that queue keeps its "
+              "list through heapq only (push = heappush of PriorityItem(payload, priority), pop = one heappop, front = data[0]) and orders items by "
+              "`priority <` alone (strict, no tie-break on other fields) - C11-H1 relies on the front being the furthest candidate",
     "C11-A1": "every array that receives a subscript store in the constructor is a fresh copy (AABB keeps views of its corners)",
     "C11-D1": "AABB.distance is the norm of max(mini - pt, pt - maxi, 0) and uses the same default metric as the point distance",
 }
@@ -217,6 +220,7 @@ def run(ctx):
     knn(ctx, root_id)
     radius(ctx, root_id)
     box_distance(ctx)
+    heap_q1(ctx)
 
 
 # ------------------------------------------------------------ KDTree._new_leaf
@@ -662,7 +666,9 @@ def constructor(ctx, leafmap, split):
                 ctx.fail("C11-A1", ctx.site(KD, fn, st),
                          f"subscript store into `{au.src(base)}`, a corner array owned by an existing box",
                          "AABB keeps views of the arrays it is given: the parent's box (and every box sharing the corner) is corrupted")
-    ctx.require_count("C11-A1 arrays receiving subscript stores in KDTree.__init__", n_a1, 1)
+    if n_a1 == 0 and not any("box of child" in u for u in ctx.unsupported):
+        ctx.fail("C11-A1", site, "no freshly copied corner array receives the split value in the constructor",
+                 "the children boxes must be the parent's box cut at the split value, on copies of its corners")
 
     if split_info and split is not None:
         for name, call, bst, pc in children:
@@ -1307,3 +1313,35 @@ def box_distance(ctx):
               f"point distance and box distance do not use the same metric (defaults {d2!r} / {d1!r}, overridden in {over})",
               "pruning compares a box distance with point distances: they must be measured in the same norm",
               note=f"same default metric {d1!r}")
+
+
+# ---------------------------------------------------------------- candidate heap (C11-Q1)
+QUEUE_API = {"push", "pop", "get", "front", "empty"}
+
+
+def heap_q1(ctx):
+    """the priority-queue obligations C11-H1 / C11-K1 depend on, decided on utils/priority_queue.py (a C11 anchor file)."""
+    from . import c20
+    repo = ctx.repo
+    mod = repo.module(KD)
+    fn = repo.func(KD, "KDTree.query")
+    site = ctx.site(KD, fn)
+    inst = c20.instances(repo, mod, fn, PQM, "PriorityQueue")
+    if len(inst) != 1:
+        ctx.fail("C11-Q1", site, "the candidate heap of query is not one instance of mouette.utils.PriorityQueue",
+                 f"{len(inst)} PriorityQueue() instances resolved to utils/priority_queue.py; the heap discipline of another container is not decided")
+        return
+    recv = inst[0][0]
+    hm, hn = U.module_aliases(mod.tree, "heapq")
+    bad = set()
+    for n in au.walk(fn):
+        if isinstance(n, ast.Attribute) and au.src(n.value) == recv:
+            if n.attr == "data":
+                v = c20.classify_data_use(n, hm, hn, False)
+                if v is not None:
+                    bad.add(f"{recv}.data: {v}")
+            elif n.attr not in QUEUE_API:
+                bad.add(f"{recv}.{n.attr}")
+    ctx.check(not bad, "C11-Q1", site, f"query manipulates its candidate heap outside the queue interface ({'; '.join(sorted(bad))})",
+              "only push / pop keep the furthest candidate at the front", note=f"{recv} used through push/pop/front only")
+    c20.q1_queue(ctx, rule="C11-Q1", with_empty=False)
